@@ -648,6 +648,8 @@ func (c *fnCtx) call(e *ast.CallExpr) string {
 						return fmt.Sprintf("(join_str %s %s)", as[1], as[0])
 					case "IndexByte":
 						return fmt.Sprintf("(go_index_byte %s %s)", as[0], as[1])
+					case "ToLower":
+						return fmt.Sprintf("(str_to_lower %s)", as[0])
 					case "EqualFold":
 						return fmt.Sprintf("(str_equal_fold %s %s)", as[0], as[1])
 					case "HasPrefix":
@@ -1499,7 +1501,8 @@ var gofunUnits = []gofunUnit{
 	{module: "GoGen", paths: []string{"github.com/reedom/convergen/pkg/generator", "github.com/reedom/convergen/pkg/generator/model"},
 		roots: [][3]string{{"github.com/reedom/convergen/pkg/generator", "Generator", "FuncToString"}},
 		doc:   "pkg/generator (FuncToString, AssignmentToString, ManipulatorToString) and pkg/generator/model (String()/RetError() of the assignment kinds, loopVars, Var.FullType)"},
-	{module: "GoNode", paths: []string{"github.com/reedom/convergen/pkg/builder/model", "github.com/reedom/convergen/pkg/option"},
+	{module: "GoNode", paths: []string{"github.com/reedom/convergen/pkg/builder/model", "github.com/reedom/convergen/pkg/option",
+		"github.com/reedom/convergen/pkg/builder", "github.com/reedom/convergen/pkg/parser"}, // the last two only so that nil comparisons of fields are seen
 		roots: [][3]string{
 			{"github.com/reedom/convergen/pkg/builder/model", "Node", "ObjName"},
 			{"github.com/reedom/convergen/pkg/builder/model", "Node", "ExprType"},
@@ -1515,6 +1518,7 @@ var gofunUnits = []gofunUnit{
 			{"github.com/reedom/convergen/pkg/option", "NameMatcher", "Match"},
 			{"github.com/reedom/convergen/pkg/option", "FieldConverter", "Match"},
 			{"github.com/reedom/convergen/pkg/option", "FieldConverter", "RHSExpr"},
+			{"github.com/reedom/convergen/pkg/option", "Options", "CompareFieldName"},
 		},
 		doc: "pkg/builder/model node.go and struct.go: the methods of the expression nodes (RootNode, ScalarNode, ConverterNode, TypecastEntry, StringerEntry, StructFieldNode, StructMethodNode) by cases"},
 }
